@@ -124,15 +124,22 @@ def shrink(
     trace: List[List],
     still_fails: Callable[[List[List]], Optional[List[List]]],
     max_evals: int = 300,
+    max_seconds: float = 1e9,
 ) -> Tuple[List[List], int]:
     """Shrink a choice trace while `still_fails(candidate)` returns the normalised trace of a run that shows the
     same violation class (None otherwise).  Returns (trace, evaluations used)."""
+    import time as _time
+
     evals = 0
     best = [list(t) for t in trace]
+    t_end = _time.time() + max_seconds  # wall cap: only bounds how far minimisation goes, never what is reported
 
     def attempt(cand):
         nonlocal evals, best
         if evals >= max_evals:
+            return False
+        if _time.time() > t_end:
+            evals = max_evals
             return False
         evals += 1
         got = still_fails(cand)
